@@ -221,7 +221,7 @@ fn c19_real_stub() -> Value {
         ],
         "stub_or_simulated": [
             "monotonic clock (cfg(jiff_verif) override in now.rs)",
-            "thread scheduler (shuttle coroutines driven by the harness's own seeded scheduler; jiff threads are coroutines on one OS thread)",
+            "thread scheduler: every simulated thread is a real OS thread, exactly one runs at a time, the baton is handed over at every cfg(jiff_verif) site by the harness's seeded scheduler",
             "file mtimes (set explicitly after every write)",
             "zone file contents (synthetic TZif + jiff's test TZif files)"
         ]
@@ -375,7 +375,7 @@ fn c20_real_stub() -> Value {
             "panic unwinding (crash fault)"
         ],
         "stub_or_simulated": [
-            "thread scheduler (shuttle coroutines under the harness's seeded scheduler; real std::thread + Miri's seeded scheduler in the thorough tier)",
+            "thread scheduler: real OS threads, one at a time, baton handed over at operation boundaries by the harness's seeded scheduler; free-running threads under Miri's seeded scheduler in the Miri tier",
             "channels / shared slot between threads (harness-owned queues; std::sync::mpsc + Mutex in the Miri tier)"
         ]
     })
